@@ -36,6 +36,15 @@ Definition prog_cfg (p : program) : cfg val :=
   {| c_tasks := map t_id (p_tasks p); c_deps := prog_deps p; c_sem := prog_sem p; c_eqb := val_eqb;
      c_keep_going := p_keep_going p; c_keep_failed := p_keep_failed p |}.
 
+(* well-formed: task ids are distinct and every dependency is a task defined earlier (what executing
+   a jugfile top to bottom guarantees) *)
+Fixpoint wf_tasks (seen : list tid) (l : list task) : bool :=
+  match l with
+  | [] => true
+  | x :: r => negb (mem (t_id x) seen) && forallb (fun d => mem d seen) (task_deps x) && wf_tasks (t_id x :: seen) r
+  end.
+Definition wf_prog (p : program) : bool := wf_tasks [] (p_tasks p).
+
 (* the values plain sequential evaluation of the program gives (no store, no workers) *)
 Definition prog_seq (p : program) (r0 : list (tid * val)) : tid -> option val :=
   seq_eval (prog_cfg p) (map t_id (p_tasks p)) (st_of r0).
@@ -50,6 +59,7 @@ Definition final_agrees (s : st val) (fin : list (tid * option val)) : bool :=
 (* the run is a run of the protocol, and the store ends as the model says *)
 Definition exec_case_ok (c : exec_case) : bool :=
   match c with (p, r0, tr, fin) =>
+    wf_prog p &&
     match run (prog_cfg p) (init (st_of r0)) tr with
     | Some s => final_agrees s fin
     | None => false
